@@ -230,6 +230,17 @@ PROPS["C18"] = {
     "assumptions": ["`Err` returned from main gives exit status 1"],
 }
 
+PROPS["C12"] = {
+    "features": None,
+    "multi_features": ["native-tls", "rustls"],
+    "technique": "Lean 4 proof: accept/reject of the modelled flag-and-root plumbing = the property's rule over the whole finite matrix (case analysis); the complete 240-cell matrix run with real handshakes on both backends",
+    "level_text": "Machine-checked theorems on Model/Tls.lean (what each of the four backend blocks hands to its TLS library, incl. how each library's PEM/DER decoders treat the supplied root): `matrix` (for every client, backend, ignore setting, extra root and server certificate the exchange is accepted exactly when the caller opted out or the certificate is valid and chains to the supplied root in either encoding), `plumbing` (without opt-out no verification is relaxed, no accept-all verifier is installed and every supplied root reaches the trust store), `default_verifies`, `bad_certificates_rejected`, `valid_with_root_accepted`, `old_async_rustls_lost_der_root` (the defect repaired by the DER fix). Tie to the code: the complete matrix {blocking, async} x {native-tls, rustls} x {unset, false, true} x {none, PEM, DER, unrelated} x {valid, wrong name, expired, self-signed, unknown CA} = 240 cells is executed on every check with real handshakes against an in-process rustls server using certificates generated at run time by the openssl CLI (two harness builds, one per backend); outcome compared with the model and the property; a rejected cell must leave zero application bytes at the server.",
+    "level_note": "Partial: the TLS libraries' verification is a parameter (`verify`) with stated behaviour; almost all assurance is the exhaustive real run, the theorem covers the plumbing.",
+    "design_ref": "DESIGN.md section 9, C12",
+    "trusted_base": COMMON_TB + ["native-tls/OpenSSL, rustls + webpki, reqwest, ureq (parameters)", "openssl CLI for test certificates", "harness/src/tls.rs: rustls test server counting application bytes after the handshake"],
+    "assumptions": ["the system trust store contains none of the test CAs", "localhost resolves to 127.0.0.1"],
+}
+
 ALL_IDS = ["C%02d" % i for i in range(1, 21)]
 
 NOT_YET = "not claimed in this revision: the theorem/correspondence pair for this property is not built yet (see DESIGN.md section 13)"
